@@ -18,7 +18,7 @@ GROUPS += [
 ]
 META = {}
 GROUPS.append(dict(name='decode_frame_fs8000', tier='off', cls='F', tu='C01_decode_frame.c', entry='h_decode_frame', dfcc=False, canary='real', expect_canaries=3,
-    defines=['-DVERIF_FS=8000', '-U__SSE__'], unwind=14, unwind_src=[(r'i<audiosize\*st->channels', 1924), (r'i<frame_size\*st->channels', 964), (r'i<st->channels\*F2_5', 42), (r'i<F2_5|i<overlap', 22)], timeout=7200, mem_gb=24,
+    defines=['-DVERIF_FS=8000', '-U__SSE__'], unwind=14, unwind_src=[(r'i<audiosize\*st->channels', 1924), (r'i<(st->)?frame_size\*st->(stream_)?channels', 964), (r'i<st->channels\*F2_5', 42), (r'i<F2_5|i<overlap', 22)], timeout=7200, mem_gb=24,
     cbmc_flags=['--object-bits', '10', '--slice-formula'],
     functions=['opus_decode_frame', 'smooth_fade', 'ec_dec_init', 'ec_dec_bit_logp', 'ec_dec_uint', 'ec_tell'],
     trusted=['ASSUMED frame contracts (stubs) of silk_Decode, celt_decode_with_ec(_dred), opus_custom_decoder_ctl, silk_ResetDecoder: result ranges and write extents only; each asserts the validity of the buffers it receives'],
@@ -36,7 +36,7 @@ for (_ch, _tf, _buf, _tier) in _SHAPES:
   for (_cn, _ca, _nc, _sp) in (('plc', 'null_data', 1 + (_buf % 20 == 0), 1), ('dtx', '!null_data&&len<=1', 1 + (_buf % 20 == 0), 2), ('real', '!null_data&&len>=2', 1 + (_buf >= _tf * 20), 3)):
     GROUPS.append(dict(name='decode_frame_c%dt%db%d_%s' % (_ch, _tf, _buf, _cn), tier=_tier, cls='B', tu='C01_decode_frame.c', entry='h_decode_frame', dfcc=False, canary='real', expect_canaries=_nc,
         defines=['-DVERIF_FS=8000', '-U__SSE__', '-DVERIF_CH=%d' % _ch, '-DVERIF_TOCF=%d' % _tf, '-DVERIF_BUF=%d' % _buf, '-DVERIF_EXTRA_ASSUME=' + _ca, '-DVERIF_SPLIT=%d' % _sp], unwind=14,
-        unwind_src=[(r'i<audiosize\*st->channels', _buf * _ch + 2), (r'i<frame_size\*st->channels', _buf * _ch + 2), (r'i<st->channels\*F2_5', 42), (r'i<F2_5|i<overlap', 22)], timeout=3600, mem_gb=20,
+        unwind_src=[(r'i<audiosize\*st->channels', _buf * _ch + 2), (r'i<(st->)?frame_size\*st->(stream_)?channels', _buf * _ch + 2), (r'i<st->channels\*F2_5', 42), (r'i<F2_5|i<overlap', 22)], timeout=3600, mem_gb=20,
         cbmc_flags=['--object-bits', '10', '--slice-formula'],
         ignore=[(r'(same object violation|arithmetic overflow on signed -) in pcm - pcm_silk', 'OPUS_COPY type-check term 0*((dst)-(src)) on distinct buffers (CBMC: pointer difference across objects)')],
         functions=['opus_decode_frame', 'smooth_fade', 'ec_dec_init', 'ec_dec_bit_logp', 'ec_dec_uint', 'ec_tell'],
@@ -48,7 +48,7 @@ for (_ch, _tf, _buf, _tier) in _SHAPES:
 for (_mf, _tier) in ((2, 'off'), (4, 'off')):
     GROUPS.append(dict(name='decode_frame_fs8000_le%dms' % (_mf * 5 // 2), tier=_tier, cls='B', tu='C01_decode_frame.c', entry='h_decode_frame', dfcc=False, canary='real', expect_canaries=3,
         defines=['-DVERIF_FS=8000', '-U__SSE__', '-DVERIF_MAXF=%d' % _mf], unwind=14,
-        unwind_src=[(r'i<audiosize\*st->channels', 40 * _mf + 4), (r'i<frame_size\*st->channels', 40 * _mf + 4), (r'i<st->channels\*F2_5', 42), (r'i<F2_5|i<overlap', 22)], timeout=3600, mem_gb=20,
+        unwind_src=[(r'i<audiosize\*st->channels', 40 * _mf + 4), (r'i<(st->)?frame_size\*st->(stream_)?channels', 40 * _mf + 4), (r'i<st->channels\*F2_5', 42), (r'i<F2_5|i<overlap', 22)], timeout=3600, mem_gb=20,
         cbmc_flags=['--object-bits', '10', '--slice-formula'],
         functions=['opus_decode_frame', 'smooth_fade', 'ec_dec_init', 'ec_dec_bit_logp', 'ec_dec_uint', 'ec_tell'],
         trusted=['ASSUMED frame contracts (stubs) of silk_Decode, celt_decode_with_ec(_dred), opus_custom_decoder_ctl, silk_ResetDecoder: result ranges and write extents only; each asserts the validity of the buffers it receives'],
